@@ -24,7 +24,12 @@ import Qryn.Prom.Downsample
     `c17down <start> <end> <step> <range> <func|-> <rows15>` — rows of `metrics_15s` of the selected series,
     `fp:b:lastV:lastTs:min:max:sum:count,…`; answer: the series after the row loop and `MapResult`,
     `fp=ts:num/den|…;…` (`unsupported` for a value column the model does not know).
-    `c17downsql <start> <end> <step> <range> <func|->` — hex of the down-sampled sample query after `WITH fp_sel`. -/
+    `c17downsql <start> <end> <step> <range> <func|->` — hex of the down-sampled sample query after `WITH fp_sel`.
+    `c17profeval <hex fromDate> <hex toDate> <selectors> <rows> <matches>` — meaning of the Pyroscope selector query
+    (`Prof.PQuery.eval`, 64-bit shift) over `profiles_series_gin` rows `date~key~val~type_id~service~stu~fp`
+    (hex fields, `stu` = `hex+hex;…` or `_`), comma separated (`_` = no rows); `matches` lists the
+    `(pattern, value)` pairs `hexpat~hexval` on which ClickHouse `match` is true (`_` = none) — the regular
+    expression engine stays outside the model; answer: the selected fingerprints ascending, `-` = none. -/
 namespace Driver.C17
 open Qryn.Read.Cursor
 
@@ -176,7 +181,45 @@ def downOp (a b c d f rows : String) : Option String := do
     let out := Qryn.Prom.Downsample.mapResult h.func out
     some (if out.isEmpty then "-" else showDSeries out)
 
+def splitList (sep : String) (s : String) : List String := if s = "_" then [] else s.splitOn sep
+
+def parsePRow (s : String) : Option Qryn.Prof.PRow :=
+  match s.splitOn "~" with
+  | [d, k, v, t, sv, stu, fp] => do
+    let d ← Qryn.ofHex d
+    let k ← Qryn.ofHex k
+    let v ← Qryn.ofHex v
+    let t ← Qryn.ofHex t
+    let sv ← Qryn.ofHex sv
+    let stu ← allSome ((splitList ";" stu).map (fun p => match p.splitOn "+" with
+      | [a, b] => do
+        let a ← Qryn.ofHex a
+        let b ← Qryn.ofHex b
+        some (a, b)
+      | _ => none))
+    let fp ← fp.toNat?
+    some ⟨d, k, v, t, sv, stu, fp⟩
+  | _ => none
+
+def profEval (d1 d2 sels rows tbl : String) : Option String := do
+  let d1 ← Qryn.ofHex d1
+  let d2 ← Qryn.ofHex d2
+  let sels ← allSome ((parseList sels).map parseSelector)
+  let rows ← allSome ((splitList "," rows).map parsePRow)
+  let tbl ← allSome ((splitList "," tbl).map (fun p => match p.splitOn "~" with
+    | [a, b] => do
+      let a ← Qryn.ofHex a
+      let b ← Qryn.ofHex b
+      some (a, b)
+    | _ => none))
+  match Qryn.Prof.plan "profiles_series_gin" d1 d2 sels with
+  | none => some "unsupported"
+  | some q =>
+    let fps := (q.eval (fun pat v => tbl.contains (pat, v)) 64 rows).mergeSort (fun a b => decide (a ≤ b))
+    some (if fps.isEmpty then "-" else ",".intercalate (fps.map toString))
+
 def handle : List String → Option String
+  | ["c17profeval", d1, d2, sels, rows, tbl] => profEval d1 d2 sels rows tbl
   | ["c17down", a, b, c, d, f, rows] => downOp a b c d f rows
   | ["c17downsql", a, b, c, d, f] => (hintsOf a b c d f).map (fun h =>
       Qryn.hexOut (Qryn.Prom.Downsample.renderDown "metrics_15s" 2 h))
